@@ -559,7 +559,10 @@ def note_array_to_score(
         else:
             beat_type = 4
         difference_from_zero = (0 - last_neg_beat) * divs * (4 / beat_type)
-        anacrusis_divs = int(last_neg_divs + difference_from_zero)
+        # the beat column is a float (single precision in partitura's note arrays):
+        # the product may come out just below the division it stands for
+        # (4.99999988 for 5), so take the nearest division instead of truncating
+        anacrusis_divs = int(round(last_neg_divs + difference_from_zero))
 
     # Create the part
     part = create_part(
